@@ -26,10 +26,13 @@ CLAIMS = {
         "text": "Decides structural necessary conditions of print/parse round-tripping: the printer registry covers every node "
                 "class the parser constructs; every print_X (and helper formatting a child directly) reads every content slot "
                 "of its node class; the quoted-string encoder's escape classes each decode back to the same character in the "
-                "lexer; _block_string guards its indexing and its terminator; the printer is stateless. Does not decide that "
-                "the layout helpers always emit parseable text nor the identity itself.",
+                "lexer; _block_string guards its indexing and its terminator; the printer is stateless; and (G1/G2) the token "
+                "language of the printer — every print method interpreted abstractly into a regular language for every slot "
+                "state of a parsed tree — lies within the reference grammar, never fuses two word-like tokens, and contains "
+                "every present slot on every execution. Does not decide that the text is read back into the same tree "
+                "(order and presence of the parts are necessary conditions of that) nor value-level identity.",
         "note": COMMON_NOTE,
-        "technique": "ast node-shape agreement (parser constructions vs printer attribute reads), escape-class table, dominance of guards",
+        "technique": "ast node-shape agreement (parser constructions vs printer attribute reads), escape-class table, dominance of guards, abstract interpretation of the printer into regular languages + automaton inclusion in the reference grammar",
     },
     "C18": {
         "text": "Decides structural necessary conditions of visitor traversal: dispatch registries route every node kind and "
